@@ -188,6 +188,9 @@ func locateComment(c gengo.Context, ref string) string {
 	return "\n// LOCATED " + name + ": <not imported>\n"
 }
 
+// curBase is the OutputFileBaseName of the request being served.
+var curBase string
+
 // resultsComment asks the universe for the possible results of every function of the processed package.
 func resultsComment(c gengo.Context) string {
 	pkg := c.Package("")
@@ -200,6 +203,9 @@ func resultsComment(c gengo.Context) string {
 	var sb strings.Builder
 	sb.WriteString("\n")
 	for _, n := range names {
+		if fs := pkg.FileSet(); fs != nil && curBase != "" && strings.HasPrefix(filepath.Base(fs.Position(fns[n].Pos()).Filename), curBase+".") {
+			continue // declared by a generated file of an earlier run: a generator that described its own output would never settle
+		}
 		res, k := pkg.ResultsOf(fns[n])
 		var all []string
 		for _, alternatives := range res {
